@@ -274,7 +274,7 @@ def check_batch(case, ctx):
             check_bin_script(_unjsonable(it['spec']), ctx)
 
 
-def check_bin_script(spec, ctx):
+def check_bin_script(spec, ctx, methods=('fixed-point', 'newton'), flags=('', '-O', '-OO')):
     """bin/sum_product.py <json> -d -G under python, -O and -OO (its shebang) must print the same, and the value must be the
     in-process one."""
     import torch, fggs
@@ -319,8 +319,8 @@ def check_bin_script(spec, ctx):
             # -w supplies the factors: the grammar file must not bind them itself
             j = json.loads(json.dumps(j)); j['interpretation']['factors'] = {}
         with open(path, 'w') as f: json.dump(j, f)
-        for method in ('fixed-point', 'newton'):
-            for flag in ('', '-O', '-OO'):
+        for method in methods:
+            for flag in flags:
                 cmd = [sys.executable] + ([flag] if flag else []) + [script, path, '-m', method, '-l', '1e-10', '-k', '2000', '-d']
                 if fgg.factors and use_e and g0 is not None:
                     for n_ in fgg.factors: cmd += ['-w', n_, wjson[n_]]
@@ -332,9 +332,9 @@ def check_bin_script(spec, ctx):
                 p = subprocess.run(cmd, env=env, cwd=d, capture_output=True, text=True, timeout=300)
                 outs[(method, flag)] = (p.returncode, p.stdout.strip())
     ctx.label('bin-script', 'bin-script-expectations' if (use_e and g0 is not None) else None)
-    for method in ('fixed-point', 'newton'):
-        base = outs[(method, '')]
-        for flag in ('-O', '-OO'):
+    for method in methods:
+        base = outs[(method, flags[0])]
+        for flag in flags[1:]:
             ctx.require(script_outputs_agree(outs[(method, flag)], base), 'assert-dependent-behaviour',
                         f'bin/sum_product.py -m {method}: python gives rc={base[0]} {base[1][:300]!r}, python {flag} gives rc={outs[(method, flag)][0]} {outs[(method, flag)][1][:300]!r}', flag=flag)
         if ctx.require(base[0] == 0 and base[1], 'bin-script-failed', f'bin/sum_product.py -m {method}: rc={base[0]} {base[1][:300]}'):
